@@ -51,7 +51,7 @@ fn typed_p(p: &Prog, lines: &[String]) -> Session {
 }
 
 fn gen_prog_in(rng: &mut Rng, stop: bool, input: bool) -> Prog {
-    let o = Opts { data: rng.chance(1, 3), func: rng.chance(1, 4), tron: false, stop, max_lines: 36, input, frac: rng.coin() };
+    let o = Opts { data: rng.chance(1, 3), func: rng.chance(1, 4), tron: false, stop, max_lines: 36, input, frac: rng.coin(), strings: rng.chance(1, 3) };
     gen::generate(rng, o)
 }
 
@@ -841,7 +841,11 @@ impl Meta {
             let joined_a = format!("{}{}", head, part2);
             let joined_b = format!("{}{}", head.strip_suffix('\n').unwrap_or(&head), part2);
             let vars = format!("{:?}", s.rt.verif_probe().vars);
-            if (joined_a != t_first && joined_b != t_first) || vars != v_first {
+            // the break forces a line break where the cursor stood; a later forced one (before READY.) may
+            // then disappear: the same text with at most one line break more or fewer
+            let nl = |t: &str| t.matches('\n').count() as i64;
+            let moved_break = joined_a.replace('\n', "") == t_first.replace('\n', "") && (nl(&joined_a) - nl(&t_first)).abs() <= 1;
+            if (joined_a != t_first && joined_b != t_first && !moved_break) || vars != v_first {
                 ctx.violation(
                     "cont-not-transparent",
                     &format!("cont:interrupt:{}", pr.state),
